@@ -672,3 +672,97 @@ package stats
 //@   ensures [empty]    len(xs) == 0 ==> isnan(mean)
 //@   ensures [width]    !(confidence <= 0) && !(confidence >= 1 || len(xs) <= 1) ==> lo == mean - (-InvCDF(TDist{len(xs) - 1})((1 - confidence) / 2)) * StdDev(xs) / sqrt(len(xs)) && hi == mean + (-InvCDF(TDist{len(xs) - 1})((1 - confidence) / 2)) * StdDev(xs) / sqrt(len(xs))
 //@   assigns nothing
+
+// ---------------------------------------------------------------------
+// Normal and delta distributions (C05)
+
+//@ func NormalDist.PDF
+//@   model real
+//@   requires n.Sigma != 0
+//@   ensures [def]    result == exp(-(x - n.Mu) * (x - n.Mu) / (2 * n.Sigma * n.Sigma)) * invSqrt2Pi / n.Sigma
+//@   ensures [nonneg] n.Sigma > 0 ==> result >= 0
+//@   assigns nothing
+
+//@ func NormalDist.cdfEach
+//@   model real
+//@   requires n.Sigma != 0
+//@   ensures [len]   len(result) == len(xs) && fresh(result)
+//@   ensures [each]  forall i in 0..len(xs) :: result[i] == ncdf(n.Mu, n.Sigma, xs[i])
+//@   loop 1 (i) invariant len(res) == len(xs) && fresh(res) && (forall j in 0..i :: res[j] == ncdf(n.Mu, n.Sigma, xs[j]))
+//@   assigns nothing
+
+//@ func NormalDist.InvCDF
+//@   model xreal
+//@   requires isfinite(n.Mu) && isfinite(n.Sigma)
+//@   ensures [nan]  (p < 0 || p > 1) ==> isnan(x)
+//@   ensures [zero] feq(p, 0) ==> x == ninf
+//@   ensures [one]  feq(p, 1) ==> x == inf
+//@   assigns nothing
+
+//@ func NormalDist.Bounds
+//@   model real
+//@   results lo, hi
+//@   ensures [def] lo == n.Mu - 3 * n.Sigma && hi == n.Mu + 3 * n.Sigma
+//@   assigns nothing
+
+//@ func NormalDist.Mean
+//@   model real
+//@   ensures [def] result == n.Mu
+//@   assigns nothing
+
+//@ func NormalDist.Variance
+//@   model real
+//@   ensures [def] result == n.Sigma * n.Sigma
+//@   assigns nothing
+
+// Laws of the closed form (erfc strictly decreasing, erfc(-a)+erfc(a)=2, 0<erfc<2).
+//@ lemma normal_cdf_monotone(mu real, sigma real, a real, b real)
+//@   model real
+//@   requires sigma > 0 && a <= b
+//@   ensures ncdf(mu, sigma, a) <= ncdf(mu, sigma, b)
+//@ lemma normal_cdf_symmetric(mu real, sigma real, d real)
+//@   model real
+//@   requires sigma > 0
+//@   ensures ncdf(mu, sigma, mu - d) + ncdf(mu, sigma, mu + d) == 1
+//@ lemma normal_cdf_range(mu real, sigma real, x real)
+//@   model real
+//@   requires sigma > 0
+//@   ensures 0 < ncdf(mu, sigma, x) && ncdf(mu, sigma, x) < 1
+
+//@ func DeltaDist.PDF
+//@   model xreal
+//@   ensures [at]   feq(x, d.T) ==> result == inf
+//@   ensures [else] !feq(x, d.T) ==> result == 0
+//@   assigns nothing
+
+//@ func DeltaDist.CDF
+//@   model xreal
+//@   ensures [step-up]   x >= d.T ==> result == 1
+//@   ensures [step-down] !(x >= d.T) ==> result == 0
+//@   assigns nothing
+
+//@ func DeltaDist.InvCDF
+//@   model xreal
+//@   ensures [nan] (y < 0 || y > 1) ==> isnan(result)
+//@   ensures [T]   !(y < 0 || y > 1) ==> result == d.T
+//@   assigns nothing
+
+//@ func DeltaDist.Bounds
+//@   model xreal
+//@   results lo, hi
+//@   ensures [def] lo == d.T - 1 && hi == d.T + 1
+//@   assigns nothing
+
+//@ func DeltaDist.pdfEach
+//@   model xreal
+//@   ensures [len]  len(result) == len(xs) && fresh(result)
+//@   ensures [each] forall i in 0..len(xs) :: (feq(xs[i], d.T) ==> result[i] == inf) && (!feq(xs[i], d.T) ==> result[i] == 0)
+//@   loop 1 (i) invariant len(res) == len(xs) && fresh(res) && (forall j in 0..i :: (feq(xs[j], d.T) ==> res[j] == inf) && (!feq(xs[j], d.T) ==> res[j] == 0)) && (forall j in i..len(xs) :: res[j] == 0)
+//@   assigns nothing
+
+//@ func DeltaDist.cdfEach
+//@   model xreal
+//@   ensures [len]  len(result) == len(xs) && fresh(result)
+//@   ensures [each] forall i in 0..len(xs) :: (xs[i] >= d.T ==> result[i] == 1) && (!(xs[i] >= d.T) ==> result[i] == 0)
+//@   loop 1 (i) invariant len(res) == len(xs) && fresh(res) && (forall j in 0..i :: (xs[j] >= d.T ==> res[j] == 1) && (!(xs[j] >= d.T) ==> res[j] == 0))
+//@   assigns nothing
